@@ -15,7 +15,6 @@ def outputSites : List (String × String) := [
   ("standard_library/io.rs", "display!"),
   ("standard_library/mod.rs", "display!"),
   ("standard_library/mod.rs", "display!"),
-  ("standard_library/robot.rs", "eprintln!"),
   ("standard_library/style.rs", "display!"),
   ("standard_library/style.rs", "display!"),
   ("verif.rs", "print!"),
